@@ -6,6 +6,8 @@ overrides).  Used by tools/refactor_fuzz.py (all properties) and by the thorough
   T3 name the returned value:  return e  ->  _rv = e; return _rv
   T4 split conjunctions without else:  if a and b: S  ->  if a: if b: S
   T5 whole module re-emitted by ast.unparse (layout, quotes, comments gone)
+  T6 drop else after a body that always leaves;  T7 the inverse (what follows becomes the else)
+  T8 first call argument extracted into a local:  f(g(x))  ->  _a0 = g(x); f(_a0)
 """
 from __future__ import annotations
 
@@ -117,7 +119,94 @@ def t4_split_and(fn):
     return done
 
 
-KINDS = {'T1': t1_rename, 'T2': t2_invert, 'T3': t3_name_return, 'T4': t4_split_and}
+def _terminates(body):
+    if not body:
+        return False
+    last = body[-1]
+    if isinstance(last, (ast.Return, ast.Raise, ast.Continue, ast.Break)):
+        return True
+    if isinstance(last, ast.If) and last.orelse:
+        return _terminates(last.body) and _terminates(last.orelse)
+    return False
+
+
+def _blocks(fn):
+    out = []
+    stack = [fn]
+    while stack:
+        n = stack.pop()
+        for field in ('body', 'orelse', 'finalbody'):
+            b = getattr(n, field, None)
+            if isinstance(b, list) and b and isinstance(b[0], ast.stmt):
+                out.append(b)
+                for st in b:
+                    if not isinstance(st, (ast.FunctionDef, ast.AsyncFunctionDef, ast.ClassDef)):
+                        stack.append(st)
+        for h in getattr(n, 'handlers', []) or []:
+            out.append(h.body)
+            stack.extend(h.body)
+    return out
+
+
+def t6_drop_else(fn):
+    """if c: <terminates> else: B   ->   if c: <terminates>; B"""
+    done = False
+    for b in _blocks(fn):
+        i = 0
+        while i < len(b):
+            st = b[i]
+            if isinstance(st, ast.If) and st.orelse and _terminates(st.body):
+                tail = st.orelse
+                st.orelse = []
+                b[i + 1:i + 1] = tail
+                done = True
+            i += 1
+    return done
+
+
+def t7_add_else(fn):
+    """if c: <terminates>; rest   ->   if c: <terminates> else: rest"""
+    done = False
+    for b in _blocks(fn):
+        for i, st in enumerate(b):
+            if isinstance(st, ast.If) and not st.orelse and _terminates(st.body) and i + 1 < len(b):
+                st.orelse = b[i + 1:]
+                del b[i + 1:]
+                done = True
+                break
+    return done
+
+
+def t8_extract_arg(fn):
+    """f(g(x), ...) as a statement's top call   ->   _a0 = g(x); f(_a0, ...)"""
+    done = False
+    k = 0
+    for b in _blocks(fn):
+        i = 0
+        while i < len(b):
+            st = b[i]
+            call = None
+            if isinstance(st, (ast.Return, ast.Expr)) and isinstance(st.value, ast.Call):
+                call = st.value
+            elif isinstance(st, ast.Assign) and isinstance(st.value, ast.Call):
+                call = st.value
+            if call is not None and call.args and isinstance(call.args[0], ast.Call) \
+                    and not any(isinstance(x, ast.Call) for x in ast.walk(call.func)) \
+                    and not any(isinstance(x, (ast.Lambda, ast.GeneratorExp, ast.ListComp)) for x in ast.walk(call.args[0])) \
+                    and not isinstance(call.args[0], ast.Starred):
+                name = '_a%d' % k
+                k += 1
+                tmp = ast.Assign(targets=[ast.Name(id=name, ctx=ast.Store())], value=call.args[0], lineno=st.lineno)
+                call.args[0] = ast.Name(id=name, ctx=ast.Load())
+                b.insert(i, tmp)
+                i += 1
+                done = True
+            i += 1
+    return done
+
+
+KINDS = {'T1': t1_rename, 'T2': t2_invert, 'T3': t3_name_return, 'T4': t4_split_and, 'T6': t6_drop_else, 'T7': t7_add_else,
+         'T8': t8_extract_arg}
 
 
 def variants(modname, text, kinds):
